@@ -64,6 +64,18 @@ func runMath(seed int64, n int, dir string) {
 			if !big36 && d.BitLen() > 300 {
 				d = g.randBits(250)
 			}
+			if g.Intn(12) == 0 { // up to the top of the type: 315 bits (Dec) / 1024 bits (BigDec), and exactly around it
+				top := 315
+				if big36 {
+					top = 1024
+				}
+				if g.Intn(2) == 0 {
+					d = g.randBits(top - g.Intn(16))
+				} else {
+					d = new(big.Int).Sub(pow2(top), big.NewInt(int64(1+g.Intn(3))))
+				}
+				o.Count("class.sqrt.top-of-range")
+			}
 			sqrtOne := func(d *big.Int) (bool, *big.Int) {
 				if big36 {
 					r, err := osmomath.MonotonicSqrtBigDec(bd(d))
@@ -268,7 +280,7 @@ func runMath(seed int64, n int, dir string) {
 			case 0:
 				d = g.randBits(1 + g.Intn(60))
 			case 1:
-				d = g.randBits(1 + g.Intn(200))
+				d = g.randBits(1 + g.Intn(270))
 			case 2:
 				d = big.NewInt(int64(g.Intn(3)))
 			case 3: // tie construction: digits then 5 then zeros
